@@ -307,7 +307,6 @@ theorem ipv6_rejects_long_group (p rest : List Char) (h1 h2 h3 h4 h5 : Char)
     rw [lemma_pton6_hex_start h1 _ e1, lemma_go6_five _ _ _ _ _ _ _ rfl e1 e2 e3 e4 e5] at hg
     cases hg
   · simp only [List.append_assoc, List.cons_append, List.nil_append] at hg
-    have key := fun st => lemma_go6_long_group · st h1 h2 h3 h4 h5 rest e1 e2 e3 e4 e5
     cases q with
     | nil =>
       simp only [List.nil_append, pton6, if_true] at hg
@@ -319,7 +318,9 @@ theorem ipv6_rejects_long_group (p rest : List Char) (h1 h2 h3 h4 h5 : Char)
       · cases q' with
         | nil =>
           simp only [List.nil_append, if_true] at hg
-          rw [lemma_go6_long_group [] _ h1 h2 h3 h4 h5 rest e1 e2 e3 e4 e5] at hg
+          have := lemma_go6_long_group [] init6 h1 h2 h3 h4 h5 rest e1 e2 e3 e4 e5
+          simp only [List.nil_append] at this
+          rw [this] at hg
           cases hg
         | cons c2 q'' =>
           simp only [List.cons_append] at hg
@@ -348,7 +349,9 @@ theorem ipv6_rejects_two_double_colons (x y z : List Char)
     · cases x' with
       | nil =>
         simp only [List.nil_append, if_true] at hg
-        rw [lemma_go6_two_dcolons [] _ y z] at hg
+        have := lemma_go6_two_dcolons [] init6 y z
+        simp only [List.nil_append] at this
+        rw [this] at hg
         cases hg
       | cons c2 x'' =>
         simp only [List.cons_append] at hg
@@ -370,7 +373,9 @@ theorem ipv6_scope_iff (a sc : List Char) (hs : '%' ∉ sc) :
   · simp [h1]; omega
   · by_cases h2 : sc.length > 15
     · simp [h2]; omega
-    · simp [h1, h2]; omega
+    · have a1 : 1 ≤ sc.length := by omega
+      have a2 : sc.length ≤ 15 := by omega
+      simp [h1, h2, a1, a2]
 
 /-- scope id of length 0 -/
 theorem ipv6_rejects_empty_scope (a : List Char) : isValidIPv6 (a ++ ['%']) = false := by
@@ -478,16 +483,13 @@ theorem cidr_rejects_no_slash (s : List Char) (h : '/' ∉ s) : isValidCidr s = 
 theorem cidr_rejects_empty_prefix (a : List Char) : isValidCidr (a ++ ['/']) = false := by
   rw [Bool.eq_false_iff]; intro hv
   obtain ⟨a', p, e, ha', hp, hne⟩ := cidr_requires_one_slash _ hv
-  -- the last character of the text is '/', so it is the last character of `p`
-  have : (a ++ ['/']).getLast? = some '/' := by simp
-  rw [e] at this
-  cases p with
-  | nil => exact hne rfl
-  | cons c r =>
-    have h2 : (a' ++ '/' :: c :: r).getLast? = (c :: r).getLast? := by
-      rw [show a' ++ '/' :: c :: r = (a' ++ ['/']) ++ (c :: r) by simp, List.getLast?_append]; simp
-    rw [h2] at this
-    exact hp (List.mem_of_getLast? this)
+  by_cases ha : '/' ∈ a
+  · obtain ⟨a1, a2, rfl, h1⟩ := lemma_first_split '/' a ha
+    have e2 : a1 ++ '/' :: (a2 ++ ['/']) = a' ++ '/' :: p := by simpa using e
+    obtain ⟨_, rfl⟩ := lemma_split_unique '/' a1 _ a' p h1 ha' e2
+    exact hp (by simp)
+  · obtain ⟨_, rfl⟩ := lemma_split_unique '/' a [] a' p ha ha' e
+    exact hne rfl
 
 theorem cidr_rejects_second_slash (a p : List Char) (hp : '/' ∈ p) : isValidCidr (a ++ '/' :: p) = false := by
   rw [Bool.eq_false_iff]; intro hv
@@ -506,7 +508,6 @@ theorem lemma_prefix_strict (v : Ver) (p : List Char) (hN5 : ¬ N5Class p)
   by_cases hs : StrictDec p
   · rw [lemma_pyInt_strict p hs hlen]
     simp [hs]
-    omega
   · have hnone : pyInt p = none := by
       cases hq : pyInt p with
       | none => rfl
